@@ -912,12 +912,27 @@ def h3(model: Model, rep: Report):
         # what is put back: the value of the location as read by this call before overriding it
         entry_value = ev.attr(loc_o[0], loc_o[1], Frame(f, f.module, {}, None, 0))
         origin = _value_origin(f, evs, ir)
+        if origin is None and isinstance(er.extra, str) and er.extra.startswith("captured-on-entry:"):
+            # class-form manager used in a with statement: its __exit__ puts back the field its __enter__ filled by reading the location
+            origin = "local-read-before-try:" + er.extra.split(":", 1)[1]
         saved_ok = er.term[3] == entry_value and origin == "local-read-before-try:" + loc_txt
         found = show(er.term[3])
         if er.term[3] == entry_value and not saved_ok:
             found += f" ({origin or 'not bound in this function before the override: a value captured elsewhere, e.g. at import time'})"
         rep.check(saved_ok, "C03.H3", construct + "[restores-entry-value]", f.loc, found=found, required=f"a local bound before the try to {loc_txt}",
                   what="leaving the override does not reinstall what was active when it was entered (a nested or outer override is dropped)", detail="restore-value")
+        for (i_s, e_s), stop in ((before[0], ys[0]), (after[0], len(evs))):
+            if not (isinstance(e_s.extra, str) and e_s.extra.startswith(("manager:", "captured-on-entry:"))):
+                continue        # a store written in this function: its invalidation is H1's obligation (the writer is in the catalogue)
+            # the store is made by a class-form manager through setattr with a computed name (no writer H1 could list): the memoised start times
+            # must be dropped right after it, before the managed block runs / before control returns
+            for M in memo_functions(model):
+                cleared = any(e.kind == "effect" and e.term is not None and e.term[0] == "call" and e.term[1] == ("attr", ("fn", M.qualname), "cache_clear")
+                              for e in evs[i_s + 1:stop])
+                rep.check(cleared, "C03.H3", construct + f"[invalidate {M.qualname} after {'override' if stop == ys[0] else 'restore'}]", f.loc,
+                          found="cache_clear follows" if cleared else "no cache_clear between the store and " + ("the managed block" if stop == ys[0] else "the end"),
+                          required=f"{M.qualname}.cache_clear() after the store",
+                          what=f"a value memoised by {M.qualname} survives the change of the duration getter: times reported afterwards are stale", detail="manager-clear")
         rep.check(io < ys[0], "C03.H3", construct + "[order]", f.loc, found="override, then yield" if io < ys[0] else "yield, then override", required="override, then yield",
                   what="the managed block runs before the override is installed", detail="order")
     if n == 0:
